@@ -39,8 +39,10 @@ Inductive exch :=
 | X2 (fields : list field) (body : option (list bytes))
      (fin_last : bool)                 (* the last DATA frame with payload carried END_STREAM *)
      (aborted : bool)                  (* the client never ended the stream (upload abandoned) *)
+     (interim : list (list field))     (* 1xx header blocks before the final one *)
      (resp_fields : list field) (reads : list (bytes * rstat))
 | X3 (fields : list field) (body : option (list bytes))
+     (interim : list (list field))
      (resp_fields : list field) (reads : list (bytes * rstat))
 (* uploads that break off: the connection / stream accepted only [accepted] bytes of the body
    (h1: Content-Length body, the peer closed the connection, no response; h3: the peer answered
@@ -76,14 +78,16 @@ Definition exch_log (ds : list dumper) (x : exch) : bool * log :=
       let '(rr, l3) := h1_recv ds n rest script_reader reads (map (fun _ => 0) reads) in
       (bytes_eqb (sr_state sr) wire && negb (sr_failed sr),
        lh ++ lpre ++ skipn (length lh) l1 ++ l2 ++ l3)
-  | X2 fs body fin aborted rfs reads =>
+  | X2 fs body fin aborted interim rfs reads =>
       let '(sr, l1) := h2_send ds no_enc id_frame id_frame [] app_w [] (mkH23Req fs body fin aborted) in
       (* no response header block at all (stream reset): nothing is read *)
       let l2 := match rfs with
                 | [] => []
                 | _ => snd (h23_recv ds rfs script_reader reads (map (fun _ => 0) reads))
                 end in
-      (Bool.eqb (sr_failed sr) (aborted && negb fin), l1 ++ l2)
+      (* every response HEADERS block - informational ones too - is dumped as field lines + CRLF *)
+      (Bool.eqb (sr_failed sr) (aborted && negb fin),
+       l1 ++ flat_map (h23_resp_header_log ds) interim ++ l2)
   | X1a hb body n =>
       let '(sr, l1) := h1_send ds (cut_w (length hb + n)) [] (mkH1Req [hb] (Some [body]) false false) in
       (Bool.eqb (sr_failed sr) (Nat.ltb n (length body)), l1)
@@ -91,10 +95,10 @@ Definition exch_log (ds : list dumper) (x : exch) : bool * log :=
       let '(sr, l1) := h3_send ds no_enc (cut_w n) [] (mkH23Req fs (Some [body]) false false) in
       let '(_, l2) := h23_recv ds rfs script_reader reads (map (fun _ => 0) reads) in
       (Bool.eqb (sr_failed sr) (Nat.ltb n (length body)), l1 ++ l2)
-  | X3 fs body rfs reads =>
+  | X3 fs body interim rfs reads =>
       let '(sr, l1) := h3_send ds no_enc app_w [] (mkH23Req fs body false false) in
       let '(_, l2) := h23_recv ds rfs script_reader reads (map (fun _ => 0) reads) in
-      (negb (sr_failed sr), l1 ++ l2)
+      (negb (sr_failed sr), l1 ++ flat_map (h23_resp_header_log ds) interim ++ l2)
   end.
 
 Fixpoint exchs_log (ds : list dumper) (xs : list exch) : bool * log :=
